@@ -18,7 +18,7 @@ def models(tier):
     out = []
     inb = [("accept",)]
     for c in (0,):
-        inb += [("m", c, n) for n in ("cer_p0", "cer_unknown", "cer_nocommon", "cer_relay", "cer_nohost", "cer_badip", "dwr", "dwa", "dpr", "dpa", "req", "ans_unknown")]
+        inb += [("m", c, n) for n in ("cer_p0", "cer_unknown", "cer_nocommon", "cer_crosskind", "cer_relay", "cer_nohost", "cer_badip", "dwr", "dwa", "dpr", "dpa", "req", "ans_unknown")]
         inb += [("b", c, "cer_unknown", "req"), ("b", c, "cer_p0", "req"), ("b", c, "cer_nocommon", "dwr"), ("b", c, "cer_nocommon", "req"),
                 ("b", c, "dwr", "cer_p0"), ("b", c, "cer_unknown", "dpr"), ("eof", c)]
     inb += [("tick", 1)]
@@ -51,9 +51,65 @@ def models(tier):
     return out
 
 
+# ------------------------------------------------------------------ E4: schedules inside the CER handling
+def sched_execute(variant, prefix):
+    """accept (default schedule), then deliver one CER with every thread interleaving explored at line
+    granularity inside receive_cer / send_message; then let time pass and judge with the same monitors."""
+    from .. import scenario, scheddfs, simkernel as sk
+    import diameter.node.node as nn
+    import diameter.node.peer as pp
+    sk.install()
+    sk.set_line_points({sk.code_of(nn.Node, "receive_cer"): None, sk.code_of(nn.Node, "send_message"): None,
+                        sk.code_of(pp.PeerConnection, "work_write_queue"): None})
+    ch = scheddfs.Chooser(prefix)
+    sc = scenario.Scenario(BASE, chooser=ch, max_socks=1)
+    try:
+        nw = sc.start()
+        mons = [m(sc) for m in MONS]
+        vs = []
+        sc.apply(("accept",))
+        for m in mons:
+            vs += m.step()
+        nw.world.points_on = True
+        ch.window = True
+        sc.apply(("m", 0, variant))
+        ch.window = False
+        nw.world.points_on = False
+        for m in mons:
+            vs += m.step()
+        for _ in range(2):
+            sc.apply(("tick", 1))
+            for m in mons:
+                vs += m.step()
+        s = sc.socks[0]
+        conn = nw.conn_of(s.fs)
+        obs = (variant, tuple(sorted(set(k for k, d in vs))), s.fs.closed, conn.state if conn else None, tuple(nw.thread_failures()))
+        return (obs, tuple(vs)), ch
+    finally:
+        sc.close()
+
+
+def sched_check(obs_vs):
+    obs, vs = obs_vs
+    return [(k + ":under-some-schedule", d) for k, d in vs]
+
+
 def run(tier):
     rep = Report("C06", tier, "model_checking")
     common.pool()
+    import functools
+    from .. import scheddfs
+    from ..common import Violation
+    bound = 2 if tier == "thorough" else 1
+    tasks = [(functools.partial(sched_execute, v), sched_check, bound) for v in ("cer_unknown", "cer_p0", "cer_nocommon")]
+    sched_execs = 0
+    for v, r in zip(("cer_unknown", "cer_p0", "cer_nocommon"), scheddfs.explore_many(tasks)):
+        sched_execs += r["executions"]
+        for (key, detail), choices in r["violations"]:
+            rep.add(Violation(key, f"[schedules of {v}, bound {bound}] choices {choices}: {detail}", {"sched": v, "choices": choices}))
+        rep.sample({"schedule_exploration": v, "preemption_bound": bound, "executions": r["executions"], "distinct_outcomes": len(r["outcomes"]),
+                    "branching_points": r["max_points"]}, 12)
+    rep.cov["schedules"] = sched_execs
     depth = 6 if tier == "thorough" else 4
     ms = models(tier)
     tot = monitors.run_models(rep, [m for m in ms if m.name != "inbound-traffic-vs-timeout"], depth, dedup_depth_plain=depth - 2,
@@ -62,7 +118,7 @@ def run(tier):
                              time_cap=900 if tier == "thorough" else 100)
     for k in tot:
         tot[k] = max(tot[k], t2[k]) if k == "max_depth" else tot[k] + t2[k]
-    rep.cov.update({"states": tot["states"], "transitions": tot["transitions"], "traces_validated_against_impl": tot["transitions"] + tot["plain_transitions"],
+    rep.cov.update({"states": tot["states"], "transitions": tot["transitions"], "traces_validated_against_impl": tot["transitions"] + tot["plain_transitions"] + sched_execs,
                     "max_depth": tot["max_depth"], "states_without_dedup": tot["plain_states"],
                     "explanation": "explicit-state BFS over histories of CER/CEA variants, bursts, base and application traffic, clock ticks, on inbound "
                                    "and outbound connections and 7 node configurations; gate + outcome + timeout monitor, answer monitor attached"})
